@@ -115,9 +115,16 @@ func AllocateRegisters(fn *ir.Function) error {
 	for _, i := range fn.Instructions() {
 		for _, d := range i.OutputRegisters() {
 			k := d.Kind()
+			a, found := as[k]
+			if !found {
+				// No operand of this kind anywhere in the function (the register
+				// is only written implicitly), hence no virtual register of this
+				// kind and nothing to allocate.
+				continue
+			}
 			out := i.LiveOut.OfKind(k)
 			out.DiscardRegister(d)
-			as[k].AddInterferenceSet(d, out)
+			a.AddInterferenceSet(d, out)
 		}
 	}
 
